@@ -149,7 +149,7 @@ def observe(om, named, sg):
     fields = set()
     for n, o in named.items():
         if isinstance(o, om.Org):
-            for f in ("members", "sub_org_of", "part_of", "has_part"):
+            for f in ("members", "sub_org_of", "part_of", "has_part", "wholly_owned_by"):
                 for x in getattr(o, f):
                     x = x() if callable(x) and not isinstance(x, om.Symbol) else x
                     fields.add((n, f, name_of.get(id(x), "<foreign>")))
